@@ -5,7 +5,7 @@ VERIF = os.path.dirname(os.path.dirname(os.path.abspath(__file__)))
 REPO = os.environ.get("MAY_REPO", "/repo")
 DRIVER_DIR = os.path.join(VERIF, "driver")
 DRIVER = os.path.join(DRIVER_DIR, "target", "debug", "mayfacts")
-CACHE = os.path.join(VERIF, ".cache")
+CACHE = os.environ.get("VERIF_CACHE") or os.path.join(VERIF, ".cache")
 
 CONFIGS = {
     # name -> cargo feature flags
